@@ -1274,8 +1274,9 @@ Qed.
 
 Lemma ssorted_seq a n : ssorted (seq a n).
 Proof.
-  revert a. induction n as [|n IH]; intros a; simpl; constructor; auto.
-  apply Forall_forall. intros x Hx. apply in_seq in Hx. lia.
+  revert a. induction n as [|n IH]; intros a; simpl; constructor.
+  - apply IH.
+  - apply Forall_forall. intros x Hx. apply in_seq in Hx. lia.
 Qed.
 
 Definition on (st : state) := onG (lvP st) (qsP st).
@@ -1337,7 +1338,7 @@ Section AddNode.
   Qed.
   Lemma an_lv j : lvP st2 j <-> j <= i.
   Proof.
-    unfold lvP. destruct (lt_eq_lt_dec j i) as [[H|->]|H].
+    unfold lvP. destruct (lt_eq_lt_dec j i) as [[H| -> ]|H].
     - rewrite an_get_old by auto. change (live (upd j (getn st j))) with (live (getn st j)).
       rewrite (fresh_live _ (Hfresh j H)). split; [lia|auto].
     - rewrite an_get_new. split; [lia|intros _].
@@ -1346,7 +1347,7 @@ Section AddNode.
   Qed.
   Lemma an_qs j q : qsP st2 j q <-> (j < i /\ qsP st j q) \/ (j = i /\ In q qs).
   Proof.
-    unfold qsP. destruct (lt_eq_lt_dec j i) as [[H|->]|H].
+    unfold qsP. destruct (lt_eq_lt_dec j i) as [[H| -> ]|H].
     - rewrite an_get_old by auto. simpl. split; [auto|intros [[_ ?]|[? _]]; [auto|lia]].
     - rewrite an_get_new. simpl. split; [auto|intros [[? _]|[_ ?]]; [lia|auto]].
     - rewrite an_get_out by auto. simpl. split; [tauto|intros [[? _]|[? _]]; lia].
@@ -1480,7 +1481,7 @@ Section AddNode.
 
   Lemma an_range j q j2 : rt st2 j q = Some j2 \/ lf st2 j q = Some j2 -> j2 < length st2.
   Proof.
-    rewrite an_len. destruct (lt_eq_lt_dec j i) as [[H|->]|H].
+    rewrite an_len. destruct (lt_eq_lt_dec j i) as [[H| -> ]|H].
     - rewrite an_rt_old, an_lf_old by auto.
       destruct (memb q qs && opt_is (lookup last q) j).
       + intros [E|E]; [inversion E; lia|]. pose proof (Hrange j q j2 (or_intror E)). unfold i; lia.
@@ -1526,3 +1527,99 @@ Section AddNode.
     - apply an_flat.
   Qed.
 End AddNode.
+
+Lemma pre_init n : Pre n [] [] [].
+Proof.
+  assert (forall i, ~ lvP [] i) as Hd.
+  { intros i H. unfold lvP in H. rewrite getn_out in H by (simpl; lia). discriminate. }
+  constructor.
+  - split; split; intros i q; try intros j; intros H; exfalso; eapply Hd; eauto.
+  - intros i Hi. simpl in Hi. lia.
+  - intros j Hj. simpl in Hj. lia.
+  - intros j q j2. unfold rt, lf. rewrite getn_out by (simpl; lia). simpl.
+    intros [E|E]; discriminate.
+  - intros q. simpl. intros m [H _]. eapply Hd; eauto.
+  - reflexivity.
+Qed.
+
+Lemma to_fused_fold n c : forall c0 st last, Pre n c0 st last ->
+  Pre n (c0 ++ c) (fst (fold_left (add_node n) c (st, last)))
+                  (snd (fold_left (add_node n) c (st, last))).
+Proof.
+  induction c as [|g c IH]; intros c0 st last HP; cbn [fold_left].
+  - rewrite app_nil_r. exact HP.
+  - pose proof (an_pre n c0 st last g HP) as H.
+    rewrite (surjective_pairing (add_node n (st, last) g)).
+    replace (c0 ++ g :: c) with ((c0 ++ [g]) ++ c) by (rewrite <- app_assoc; reflexivity).
+    apply IH. exact H.
+Qed.
+
+Theorem to_fused_inv n k c : Inv n k c (to_fused n c).
+Proof.
+  assert (Pre n c (to_fused n c) (snd (fold_left (add_node n) c ([], [])))) as HP
+    by exact (to_fused_fold n c [] [] [] (pre_init n)).
+  destruct HP as [Ha Hw Hf Hr Hl Hfl].
+  constructor; auto.
+  - rewrite Hfl. apply teq_refl.
+  - rewrite Hfl. reflexivity.
+  - intros i Hm Hg. exfalso. pose proof (unmarked_range _ _ Hm) as Hi.
+    destruct (Hf i Hi) as [g [E _]]. rewrite E in Hg. simpl in Hg. lia.
+Qed.
+
+Theorem fuse_final_inv n k c : Inv n k c (fuse_loop k (to_fused n c)).
+Proof. apply fuse_loop_inv. apply to_fused_inv. Qed.
+
+(* ================================================================ the main results *)
+Theorem fuse_equiv_proof n c k : gteqn n (flatten (fuse_model n c k)) c.
+Proof.
+  unfold fuse_model. rewrite flat_from_fused. apply (inv_flat _ _ _ _ (fuse_final_inv n k c)).
+Qed.
+
+Theorem fuse_nonord_proof n c k :
+  filter nonord (flatten (fuse_model n c k)) = filter nonord c.
+Proof.
+  unfold fuse_model. rewrite flat_from_fused. apply (inv_nonord _ _ _ _ (fuse_final_inv n k c)).
+Qed.
+
+Lemma In_getn (st : state) nd : In nd st -> exists i, i < length st /\ getn st i = nd.
+Proof. intros H. destruct (In_nth _ _ dnode H) as [i [Hi E]]. exists i. auto. Qed.
+
+Theorem fuse_groups_proof n c k qs gs :
+  In (IGroup qs gs) (fuse_model n c k) ->
+  (forall g, In g gs -> is_ord g = true /\ incl (gqs g) qs)
+  /\ length qs <= k /\ NoDup qs /\ 2 <= length gs.
+Proof.
+  unfold fuse_model, from_fused. intros H. apply in_flat_map in H.
+  destruct H as [nd [Hnd Hit]]. destruct (In_getn _ _ Hnd) as [i [Hi E]].
+  pose proof (fuse_final_inv n k c) as HI. set (st := fuse_loop k (to_fused n c)) in *.
+  pose proof (inv_wf _ _ _ _ HI i Hi) as Hw. rewrite E in Hw.
+  unfold node_items in Hit. destruct (nmarked nd) eqn:Hm; simpl in Hit.
+  - destruct (ngates nd) as [|g0 gs0]; [inversion Hit|].
+    destruct (is_ord g0); [inversion Hit|]. destruct Hit as [Hit|[]]. discriminate.
+  - destruct Hw as [Hs Hw]. rewrite Hm in Hw. destruct Hw as [Hne Hall].
+    assert (2 <= length (ngates nd) /\ qs = nqs nd /\ gs = ngates nd) as [Hlen [-> ->]].
+    { destruct (ngates nd) as [|g0 [|g1 gs1]].
+      - congruence.
+      - destruct Hit as [Hit|[]]. discriminate.
+      - destruct Hit as [Hit|[]]. inversion Hit. simpl. repeat split; auto. lia. }
+    repeat split; auto.
+    + apply Hall; auto.
+    + apply Hall; auto.
+    + pose proof (inv_width _ _ _ _ HI i) as Hwd. rewrite E in Hwd. apply Hwd; auto.
+    + apply ssorted_NoDup; auto.
+Qed.
+
+(* a measurement / special gate of the input appears as itself (not inside a group) *)
+Theorem fuse_single_proof n c k g :
+  In g c -> is_ord g = false -> In (ISingle g) (fuse_model n c k).
+Proof.
+  intros Hg Ho.
+  assert (In g (flatten (fuse_model n c k))) as Hin.
+  { apply (teq_in _ _ _ g
+             (teq_sym _ (sindep_sym (gsupp n)) _ _ (fuse_equiv_proof n c k))). exact Hg. }
+  unfold flatten in Hin. apply in_flat_map in Hin. destruct Hin as [it [Hit Hgi]].
+  destruct it as [g0|qs gs]; simpl in Hgi.
+  - destruct Hgi as [->|[]]. exact Hit.
+  - destruct (fuse_groups_proof n c k qs gs Hit) as [Hall _].
+    destruct (Hall g Hgi) as [Ho' _]. congruence.
+Qed.
